@@ -953,6 +953,19 @@ def sample_reads(world, sample):
             else:
                 out.append((rs, ops_, seq, nm))
         reads = out
+    # sequencing-style deletions: a fraction of the reads skips a short run of reference bases
+    if sample.get("random_del"):
+        drng = random.Random(f"{sample.get('phase_seed', 0)}:del")
+        out = []
+        for rs, ops_, seq, nm in reads:
+            if drng.random() < sample["random_del"] and len(ops_) == 1 and ops_[0][0] == 0 and ops_[0][1] > 30:
+                n = ops_[0][1]
+                k = drng.randint(1, 3)
+                at = drng.randint(10, n - 10 - k)
+                out.append((rs, [(0, at), (2, k), (0, n - at - k)], seq[:at] + seq[at + k:], nm))
+            else:
+                out.append((rs, ops_, seq, nm))
+        reads = out
     # aligner-style soft clips: a fraction of the reads gets its first / last bases clipped
     if sample.get("softclip"):
         srng = random.Random(f"{sample.get('phase_seed', 0)}:softclip")
@@ -1016,8 +1029,18 @@ def write_bam(path, world, reads, build="hg19", sort=True, index=True, mapq=60,
         {"HD": {"VN": "1.6", "SO": "coordinate" if sort else "unsorted"}, "SQ": sq}
     )
     recs = []
+    nc = world.get("neutral_contig")
+    if nc:
+        sq.insert(1, {"SN": nc["name"], "LN": clen + abs(nc["offset"])})
+        header = pysam.AlignmentHeader.from_dict(
+            {"HD": {"VN": "1.6", "SO": "coordinate" if sort else "unsorted"}, "SQ": sq}
+        )
     for ref_start, ops, seq, name in reads:
-        recs.append((ref_start + shift, ops, seq, name, 0, mapq, baseq))
+        if nc and name.startswith("n"):
+            # reads of the neutral locus: second contig
+            recs.append((ref_start + nc["offset"] + shift, ops, seq, name, 0, mapq, baseq, 1))
+        else:
+            recs.append((ref_start + shift, ops, seq, name, 0, mapq, baseq))
     if extra_records:
         recs += extra_records
     if sort:
@@ -1066,9 +1089,15 @@ def reference_sample(world):
     }
 
 
-def neutral_arg(world, build="hg19"):
+def neutral_arg(world, build="hg19", sub=None):
+    """The copy-number-neutral region as a command-line argument (`sub`: another interval, in the
+    coordinates of world["neutral"]).  With world["neutral_contig"] = {"name", "offset"} the neutral reads
+    live on a second contig (write_bam puts them there), `offset` bases further on."""
     shift = world["hg38_shift"] if build == "hg38" else 0
-    c0, c1 = world["neutral"]
+    c0, c1 = sub or world["neutral"]
+    nc = world.get("neutral_contig")
+    if nc:
+        return f"{nc['name']}:{c0 + nc['offset'] + shift}-{c1 + nc['offset'] + shift}"
     return f"{world['contig']['name']}:{c0 + shift}-{c1 + shift}"
 
 
